@@ -9,7 +9,8 @@
    the connector arrives (`Control(Accept) => return none`); ticks and flushes alone never emit
    one from a connector that has nothing to send (no_chunks_run below). So the acceptor goes
    online with the first send of A's application; that step and the healing schedule of
-   Link6Heal.v are composed in progress_link. *)
+   Link6Heal.v are composed in progress_link. late_accept_link covers the states in between: A is
+   online and has something to send or resend, B is still pending. *)
 From LibTw2 Require Import Base.Res Model.PacketTypes Model.ConnCore Model.Conn6 Model.LinkGhost Model.Link6
   Proofs.ConnCoreInv Proofs.Conn6Inv Proofs.LinkArith Proofs.LinkCore Proofs.Link6Inv Proofs.ConnProgress
   Proofs.Link6Heal Proofs.Link6Tok.
@@ -1085,4 +1086,335 @@ Proof.
   unfold hs_rand_okb, hs_rand_ok. intros H. apply andb_true_iff in H as [H H3]. apply andb_true_iff in H as [H1 H2].
   split; [apply rand_okb_ok, H1|]. split; [apply rand_okb_ok, H2|].
   intros Hu t r Hr. rewrite Hu, Hr in H3. apply rand_okb_ok, H3.
+Qed.
+
+
+(* ================= part 11: A is online and has something to send, B is still pending ================= *)
+Definition is_chunks (d : dgram) : Prop := match d with DChunks _ _ _ _ _ => True | _ => False end.
+
+Lemma flush_chunks pp o o' ds : online_flush pp o = Ok (o', ds) -> Forall is_chunks ds.
+Proof.
+  unfold online_flush. destruct (negb (can_send o)); [intros H; injection H as <- <-; constructor|].
+  destruct (MAX_PACKETSIZE <? _); [discriminate|]. intros H; injection H as <- <-. constructor; [exact I|constructor].
+Qed.
+
+Lemma resend_loop_chunks pp : forall todo fuel o out ts o' out' ts',
+  resend_loop pp fuel o todo out ts = Ok (o', out', ts') -> Forall is_chunks out -> Forall is_chunks out'.
+Proof.
+  induction todo as [|c rest IH].
+  - intros fuel o out ts o' out' ts' H Ho. destruct fuel; cbn in H; injection H as <- <- <-; exact Ho.
+  - induction fuel as [|fuel IHf]; intros o out ts o' out' ts' H Ho; cbn [resend_loop] in H; [discriminate|].
+    destruct (can_fit_chunk _ _ _ _).
+    + destruct (pc_write_chunk _ _ _ _) as [p| | |]; try discriminate. eapply IH; eassumption.
+    + destruct (online_flush pp o) as [[o1 d1]| | |] eqn:Ef; try discriminate.
+      eapply IHf; [eassumption|]. apply Forall_app. split; [exact Ho|eapply flush_chunks, Ef].
+Qed.
+
+Lemma resend_chunks pp now o o' ds ts : online_resend pp now o = Ok (o', ds, ts) -> Forall is_chunks ds.
+Proof.
+  unfold online_resend. destruct (o_queue o); [intros H; injection H as <- <- <-; constructor|].
+  intros H. eapply resend_loop_chunks; [exact H|constructor].
+Qed.
+
+Lemma map_mkf_inj x x' ds ds' : map (mkf x) ds = map (mkf x') ds' -> ds = ds'.
+Proof.
+  intros H. apply (f_equal (map f_d)) in H. rewrite !map_fd_mkf in H. exact H.
+Qed.
+
+(* A lets both its deadlines pass, ticks and flushes; nothing is assumed about B *)
+Lemma speak_alone w o :
+  link_inv w -> c_state (l_conn (get w SA)) = Online o ->
+  exists w' ds o2,
+    sched w (speak SA (Z.max 0 (due (l_conn (get w SA)) - k_now w))) w' /\ link_inv w' /\
+    bag w' SA = bag w SA ++ map (mkf (get w SA)) ds /\ bag w' SB = bag w SB /\
+    get w' SB = get w SB /\
+    l_sub (get w' SA) = l_sub (get w SA) /\ l_del (get w' SA) = l_del (get w SA) /\
+    l_rand (get w' SA) = l_rand (get w SA) /\
+    c_state (l_conn (get w' SA)) = Online o2 /\ o_own o2 = o_own o /\ o_their o2 = o_their o /\
+    pc_chunks (o_packet o2) = [] /\ o_rr o2 = false /\
+    ds <> [] /\ Forall (dg_ok (o_their o) (o_rr o)) ds /\
+    Forall (fun d => tight (zlen (l_sub (get w SA))) (dgram_chunks d)) ds /\
+    (o_queue o <> [] \/ can_send o = true -> Forall is_chunks ds).
+Proof.
+  intros Hi Hon. remember (get w SA) as x eqn:Ex.
+  set (dt := Z.max 0 (due (l_conn x) - k_now w)).
+  pose proof (linv_side w SA Hi) as Hsx. rewrite <- Ex in Hsx.
+  pose proof (sv_conn _ _ _ _ _ Hsx) as Hc.
+  destruct (sv_online _ _ _ _ _ Hsx o Hon) as [a [Hsnd [Ha Hack]]].
+  destruct (ltime_step w dt) as [w1 [S1 [G1 [B1 [N1 I1]]]]]. specialize (I1 Hi).
+  assert (A2 : admissible w1 (LApp SA OpTick)) by (cbn; repeat split).
+  destruct (lapp_step w1 SA OpTick I1 A2) as [x1 [fl1 [T1 [L1 I2]]]]. rewrite G1, <- Ex in T1.
+  assert (Hdue : due (l_conn x) <= k_now w1) by (rewrite N1; unfold dt; lia).
+  destruct (tick_side _ x o x1 fl1 Hon Hc Hdue T1) as [_ [_ [_ [_ [o1 [ds1 [Hon1 [Efl1 Hcase]]]]]]]].
+  assert (A3 : admissible (set_side w1 SA x1 fl1) (LApp SA OpFlush)).
+  { cbn [admissible]. rewrite get_set_same. split; [exact I|]. split; [exists o1; exact Hon1|exact I]. }
+  destruct (lapp_step _ SA OpFlush I2 A3) as [x2 [fl2 [T2 [L2 I3]]]].
+  rewrite get_set_same, now_set in T2.
+  destruct (speak_side _ x o a x1 fl1 x2 fl2 Hon Hc Hsnd Hack Hdue T1 T2)
+    as [o2 [ds [Hconn2 [Hfl [Es [Ed [Er [To [Tt [P1 [P2 [P3 [P4 [P5 [P6 [P7 P8]]]]]]]]]]]]]]]].
+  exists (set_side (set_side w1 SA x1 fl1) SA x2 fl2), ds, o2.
+  split.
+  { eapply sched_cons; [exact I|exact S1|]. eapply sched_cons; [exact A2|exact L1|].
+    eapply sched_cons; [exact A3|exact L2|apply sched_nil]. }
+  split; [exact I3|].
+  split. { rewrite !bag_set_same, B1, <- app_assoc, Hfl. reflexivity. }
+  split. { change SB with (other SA). rewrite !bag_set_other. apply B1. }
+  split. { change SB with (other SA). rewrite !get_set_other. apply G1. }
+  rewrite get_set_same. split; [exact Es|]. split; [exact Ed|]. split; [exact Er|].
+  split; [rewrite Hconn2; reflexivity|]. split; [exact To|]. split; [exact Tt|].
+  split; [exact P1|]. split; [exact P2|]. split; [exact P4|]. split; [exact P5|]. split; [exact P6|].
+  (* everything emitted is a chunk datagram unless A was idle *)
+  intros Hbusy.
+  destruct (flush_side _ x1 o1 x2 fl2 Hon1 T2) as [o2' [ds2 [Ef2 [_ [Efl2 _]]]]].
+  assert (Eds : ds = ds1 ++ ds2).
+  { assert (Hs1 : l_sub x1 = l_sub x /\ l_del x1 = l_del x).
+    { destruct (tick_side _ x o x1 fl1 Hon Hc Hdue T1) as [Q1 [Q2 _]]. split; assumption. }
+    destruct Hs1 as [Q1 Q2].
+    assert (Hm : map (mkf x1) ds2 = map (mkf x) ds2).
+    { apply map_ext. intros d. unfold mkf. rewrite Q1, Q2. reflexivity. }
+    rewrite Efl1, Efl2, Hm, <- map_app in Hfl. symmetry. eapply map_mkf_inj, Hfl. }
+  rewrite Eds. apply Forall_app. split; [|eapply flush_chunks, Ef2].
+  destruct Hcase as [[Hq [ts Er']]|[[Hq [Ecs Ef1]]|[Hq [Ecs _]]]].
+  - eapply resend_chunks, Er'.
+  - eapply flush_chunks, Ef1.
+  - destruct Hbusy as [Hb|Hb]; [contradiction|congruence].
+Qed.
+
+(* the first chunk datagram reaches the pending acceptor: it is online, nothing is emitted *)
+Lemma feed_chunks_pending now y t ack rr n cs y' fl :
+  c_state (l_conn y) = Pending t -> side_step now y (OpFeed (DChunks t ack rr n cs)) = Ok (y', fl) ->
+  fl = [] /\ exists ob, c_state (l_conn y') = Online ob /\ o_own ob = t /\ o_their ob = t /\
+    l_sub y' = l_sub y /\ l_rand y' = l_rand y.
+Proof.
+  intros Hp H. apply side_step_inv in H as [out [Hs [-> ->]]].
+  destruct y as [[st sd] rnd sub del nvs nvr rdy ans]. cbn [l_conn c_state c_send] in Hp. subst st.
+  unfold step, feed in Hs. cbn [l_conn c_state c_send e_now e_rand l_rand dgram_tok dgram_ack state_token] in Hs.
+  rewrite tok_eqb_refl in Hs. cbn [negb] in Hs.
+  destruct ((ack <? 0) || (SEQ_MOD <=? ack)); [discriminate|].
+  assert (Hrs : (if rr then do_resend {| c_state := Online (online_new t t); c_send := sd |}
+                               {| e_now := now; e_rand := rnd |} (online_new t t)
+                 else Ok ({| c_state := Online (online_new t t); c_send := sd |}, []))
+                = Ok ({| c_state := Online (online_new t t); c_send := sd |}, [])) by (destruct rr; reflexivity).
+  rewrite Hrs in Hs. cbn [bind c_state c_send] in Hs.
+  destruct (recv_chunks _ _ cs) as [[[a' r'] evs]| | |]; cbn [bind] in Hs; try discriminate.
+  injection Hs as <-. cbn. split; [reflexivity|]. eexists. repeat split.
+Qed.
+
+Definition late_schedule (na nb : nat) (dt : Z) (n : nat)
+    (dt1 : Z) (n1 : nat) (dt2 : Z) (n2 : nat) (dt3 : Z) (n3 : nat) : list llabel :=
+  drops SA na ++ drops SB nb ++ speak SA dt ++ drain SA n ++ heal_schedule 0 0 dt1 n1 dt2 n2 dt3 n3.
+
+Lemma drain_S s n : drain s (S n) = drain s 1 ++ drain s n.
+Proof. reflexivity. Qed.
+
+Theorem late_accept_link w oa t :
+  link_inv w -> c_state (l_conn (k_a w)) = Online oa -> c_state (l_conn (k_b w)) = Pending t ->
+  o_own oa = t -> (o_queue oa <> [] \/ can_send oa = true) ->
+  rand_ok {| e_now := k_now w; e_rand := l_rand (k_a w) |} ->
+  rand_ok {| e_now := k_now w; e_rand := l_rand (k_b w) |} ->
+  exists na nb dt n dt1 n1 dt2 n2 dt3 n3 w' oa' ob',
+    0 <= dt /\ 0 <= dt1 /\ 0 <= dt2 /\ 0 <= dt3 /\
+    sched w (late_schedule na nb dt n dt1 n1 dt2 n2 dt3 n3) w' /\ link_inv w' /\
+    l_sub (k_a w') = l_sub (k_a w) /\ l_sub (k_b w') = l_sub (k_b w) /\
+    l_del (k_b w') = l_sub (k_a w') /\ l_del (k_a w') = l_sub (k_b w') /\
+    c_state (l_conn (k_a w')) = Online oa' /\ c_state (l_conn (k_b w')) = Online ob' /\
+    o_queue oa' = [] /\ o_queue ob' = [] /\
+    pc_chunks (o_packet oa') = [] /\ pc_chunks (o_packet ob') = [] /\
+    o_rr oa' = false /\ o_rr ob' = false /\ k_ab w' = [] /\ k_ba w' = [].
+Proof.
+  intros Hi Hoa Hpb Htok Hbusy HrA HrB.
+  set (subs := fun s => l_sub (get w s)). set (rnds := fun s => l_rand (get w s)).
+  assert (HrndB : forall now, rand_ok {| e_now := now; e_rand := rnds SB |}) by (intros now; exact HrB).
+  pose proof (linv_side w SA Hi) as HsA. pose proof (linv_side w SB Hi) as HsB. cbn [get other] in HsA, HsB.
+  destruct (sv_fresh _ _ _ _ _ HsB) as [SubB [DelB _]]; [rewrite Hpb; exact I|].
+  assert (DelA : l_del (k_a w) = []).
+  { pose proof (sv_dle _ _ _ _ _ HsA) as Hd. rewrite SubB in Hd. destruct (l_del (k_a w)); [reflexivity|].
+    unfold zlen in Hd. cbn [length] in Hd. lia. }
+  pose proof (sv_conn _ _ _ _ _ HsA) as HcA. unfold conn_ok6 in HcA. rewrite Hoa in HcA.
+  destruct HcA as [_ [HtA _]].
+  assert (Eth : o_their oa = t) by congruence.
+  (* everything in flight is lost *)
+  destruct (drop_all SA _ w eq_refl Hi) as [w1 [S1 [I1 [E1 [B1 [O1 N1]]]]]].
+  destruct (drop_all SB _ w1 eq_refl I1) as [w2 [S2 [I2 [E2 [B2 [O2 N2]]]]]]. cbn [other] in O1, O2.
+  assert (E20 : forall s, get w2 s = get w s) by (intros s; rewrite E2, E1; reflexivity).
+  assert (B2A : bag w2 SA = []) by (rewrite O2; exact B1).
+  (* A speaks *)
+  assert (Hoa2 : c_state (l_conn (get w2 SA)) = Online oa) by (rewrite E20; exact Hoa).
+  destruct (speak_alone w2 oa I2 Hoa2)
+    as [w3 [ds [oa3 [S3 [I3 [B3 [O3 [X3 [Sub3 [Del3 [Rn3 [Hoa3 [Own3 [Th3 [P3 [R3 [Ne3 [Dg3 [Ti3 Ch3]]]]]]]]]]]]]]]]]]].
+  rewrite B2A in B3. cbn [app] in B3. rewrite B2 in O3. rewrite E20 in *.
+  specialize (Ch3 Hbusy). rewrite Eth in Dg3.
+  destruct ds as [|d1 rest]; [contradiction|]. clear Ne3.
+  inversion Ch3 as [|d1' r' Hd1 _]; subst d1' r'.
+  inversion Dg3 as [|d1' r' [_ [Tk1 _]] Dgr]; subst d1' r'.
+  inversion Ti3 as [|d1' r' Ti1 Tir]; subst d1' r'.
+  destruct d1 as [t1 t2 pl|tk ak ctl|tk ak rr n cs]; try contradiction. cbn [dgram_tok] in Tk1.
+  subst tk.
+  cbn [map] in B3.
+  (* the first datagram takes B online *)
+  set (f1 := mkf (get w SA) (DChunks t ak rr n cs)) in *.
+  assert (Hpb3 : c_state (l_conn (get w3 SB)) = Pending t) by (rewrite X3; exact Hpb).
+  assert (Hfresh : fresh f1 (get w3 (other SA))).
+  { cbn [other]. rewrite X3. cbn [get]. split.
+    - unfold f1. cbn [mkf f_c get]. rewrite SubB, DelA. cbn. lia.
+    - intros c sq r Hin Hv. unfold f1 in *. cbn [mkf f_d f_n dgram_chunks get] in *.
+      destruct (Ti1 c sq r Hin Hv) as [i [Hi1 ->]].
+      rewrite (idx_of_spec (zlen (l_sub (k_a w))) (seqof i) i); [|lia|reflexivity]. rewrite DelB.
+      pose proof (zlen_nonneg (l_sub (k_a w))). change (zlen (@nil bytes)) with 0. lia. }
+  destruct (ldeliver_step w3 SA f1 _ I3 B3 Hfresh) as [A4 [y4 [fl4 [T4 [L4 I4]]]]].
+  { cbn [other]. rewrite X3. cbn [get]. exact HrB. }
+  cbn [other] in T4, L4, I4. rewrite X3 in T4. unfold f1 in T4. cbn [mkf f_d get] in T4.
+  destruct (feed_chunks_pending _ _ t ak rr n cs y4 fl4 Hpb T4) as [-> [ob4 [Hob4 [Own4 [Th4 [Sub4 Rn4]]]]]].
+  destruct (ldrop_step (set_side w3 SB y4 []) SA) as [w5 [S5 [G5 [B5 [O5 [N5 I5]]]]]]. specialize (I5 I4).
+  cbn [other] in O5.
+  assert (Hoa5 : c_state (l_conn (get w5 SA)) = Online oa3).
+  { rewrite G5. change SA with (other SB). rewrite get_set_other. exact Hoa3. }
+  assert (Hob5 : c_state (l_conn (get w5 (other SA))) = Online ob4).
+  { cbn [other]. rewrite G5, get_set_same. exact Hob4. }
+  assert (G5' : good w5 t subs rnds).
+  { split; [exact I5|]. intros [|]; unfold subs, rnds.
+    - exists oa3. split; [exact Hoa5|]. rewrite G5. change SA with (other SB). rewrite get_set_other. cbn [other].
+      split; [congruence|]. split; [congruence|]. split; assumption.
+    - exists ob4. rewrite G5, get_set_same. split; [exact Hob4|]. split; [exact Own4|]. split; [exact Th4|].
+      cbn [get]. split; assumption. }
+  assert (B5' : bag w5 SA = map (mkf (get w SA)) rest).
+  { rewrite B5. change SA with (other SB). rewrite bag_set_other. cbn [other]. rewrite B3. reflexivity. }
+  assert (F5 : Forall (fl_ok t (zlen (subs SA)) (zlen (subs SB))) (map (mkf (get w SA)) rest)).
+  { unfold subs. cbn [get]. eapply fl_ok_map; [reflexivity| |exact Dgr|exact Tir|right].
+    - rewrite SubB, DelA. cbn. lia.
+    - rewrite SubB, DelA. reflexivity. }
+  destruct (drain_all SA t subs rnds HrndB _ w5 ob4 G5' B5' F5 Hob5)
+    as [w6 [ob6 [S6 [G6 [B6 [O6 [X6 [N6 [Hob6 _]]]]]]]]].
+  cbn [other] in O6, Hob6.
+  pose proof (proj1 G6) as I6.
+  destruct (proj2 G6 SA) as [oa6 [Hoa6 [Own6 [Th6 [SubA6 RnA6]]]]].
+  destruct (proj2 G6 SB) as [ob6' [Hob6' [OwnB6 [ThB6 [SubB6 RnB6]]]]].
+  rewrite Hob6 in Hob6'. injection Hob6' as <-.
+  assert (Eoa6 : oa6 = oa3) by (rewrite X6, Hoa5 in Hoa6; injection Hoa6 as <-; reflexivity). subst oa6.
+  assert (Bab6 : k_ab w6 = []) by exact B6.
+  assert (Bba6 : k_ba w6 = []).
+  { change (k_ba w6) with (bag w6 SB). rewrite O6, O5, bag_set_same, O3. reflexivity. }
+  (* the healing schedule *)
+  destruct (heal_link w6 oa3 ob6 I6 Hoa6 Hob6) as
+    [na' [nb' [dt1 [n1 [dt2 [n2 [dt3 [n3 [w' [oa' [ob' [D1 [D2 [D3 [Hadm [Hrun [I7 [Sa [Sb [Db' [Da' [Oa [Ob [Qa [Qb [Pa [Pb [Rra [Rrb [Ba Bb]]]]]]]]]]]]]]]]]]]]]]]]]]]]]].
+  { congruence. }
+  { change (k_a w6) with (get w6 SA). rewrite RnA6. exact HrA. }
+  { change (k_b w6) with (get w6 SB). rewrite RnB6. exact HrB. }
+  assert (Cs6 : can_send oa3 = false).
+  { pose proof (sv_conn _ _ _ _ _ (linv_side w6 SA I6)) as Hc. unfold conn_ok6 in Hc. rewrite Hoa6 in Hc.
+    destruct Hc as [[[Hn _] _] _]. rewrite P3 in Hn. apply idle_can_send; [exact Hn|exact R3]. }
+  pose proof (heal_no_loss w6 oa3 na' nb' dt1 n1 dt2 n2 dt3 n3 w' Hoa6 Cs6 Bab6 Bba6 (conj Hadm Hrun)) as S7.
+  exists (length (bag w SA)), (length (bag w1 SB)), (Z.max 0 (due (l_conn (get w SA)) - k_now w2)),
+    (S (length (map (mkf (get w SA)) rest))), dt1, n1, dt2, n2, dt3, n3, w', oa', ob'.
+  split; [lia|]. do 3 (split; [assumption|]).
+  split.
+  { unfold late_schedule. eapply sched_app; [exact S1|]. eapply sched_app; [exact S2|]. eapply sched_app; [exact S3|].
+    eapply sched_app; [|exact S7]. rewrite drain_S. eapply sched_app; [|exact S6].
+    eapply sched_cons; [exact A4|exact L4|]. eapply sched_cons; [exact I|exact S5|apply sched_nil]. }
+  split; [exact I7|].
+  split; [rewrite Sa; exact SubA6|]. split; [rewrite Sb; exact SubB6|].
+  repeat (split; [assumption|]). assumption.
+Qed.
+
+Lemma late_shape na nb dt n dt1 n1 dt2 n2 dt3 n3 :
+  0 <= dt -> 0 <= dt1 -> 0 <= dt2 -> 0 <= dt3 ->
+  let ls := late_schedule na nb dt n dt1 n1 dt2 n2 dt3 n3 in
+  Forall heal_label ls /\ ticks ls = 4%nat /\
+  exists post, ls = drops SA na ++ drops SB nb ++ post /\ orderly post.
+Proof.
+  intros H0 H1 H2 H3 ls. unfold ls, late_schedule.
+  assert (Hh : Forall heal_label (heal_schedule 0 0 dt1 n1 dt2 n2 dt3 n3)) by (apply heal_labels; assumption).
+  split; [|split].
+  - apply Forall_app. split; [apply heal_labels_drops|]. apply Forall_app. split; [apply heal_labels_drops|].
+    apply Forall_app. split; [repeat constructor; exact H0|]. apply Forall_app. split; [apply heal_labels_drain|exact Hh].
+  - rewrite !ticks_app, !ticks_drops, ticks_drain, ticks_heal. reflexivity.
+  - destruct (heal_schedule_shape 0 0 dt1 n1 dt2 n2 dt3 n3) as [hp [Eh Oh]]. cbn [drops repeat app] in Eh.
+    eexists. split; [reflexivity|].
+    apply orderly_app; [exact I|]. apply orderly_app; [apply orderly_drain|]. rewrite Eh. exact Oh.
+Qed.
+
+(* A online with nothing in its resend queue while B is still pending: nothing was ever submitted *)
+Lemma pending_idle_nothing w oa t :
+  link_inv w -> c_state (l_conn (k_a w)) = Online oa -> c_state (l_conn (k_b w)) = Pending t ->
+  o_queue oa = [] ->
+  l_sub (k_a w) = [] /\ l_del (k_a w) = [] /\ l_sub (k_b w) = [] /\ l_del (k_b w) = [].
+Proof.
+  intros Hi Hoa Hpb Hq.
+  pose proof (linv_side w SA Hi) as HsA. pose proof (linv_side w SB Hi) as HsB. cbn [get other] in HsA, HsB.
+  destruct (sv_fresh _ _ _ _ _ HsB) as [SubB [DelB _]]; [rewrite Hpb; exact I|].
+  assert (Hnil : forall l : list bytes, zlen l <= 0 -> l = []).
+  { intros l H. destruct l; [reflexivity|]. unfold zlen in H. cbn [length] in H. lia. }
+  split; [|split; [|split; assumption]].
+  - destruct (sv_online _ _ _ _ _ HsA oa Hoa) as [a [Hs [Ha _]]].
+    pose proof (si_queue _ _ _ _ Hs) as Hqi. rewrite Hq in Hqi. cbn in Hqi.
+    apply Hnil. rewrite DelB in Ha. change (zlen (@nil bytes)) with 0 in Ha. lia.
+  - apply Hnil. pose proof (sv_dle _ _ _ _ _ HsA) as Hd. rewrite SubB in Hd. exact Hd.
+Qed.
+
+
+(* ================= part 12: both sides called connect: neither ever gets an answer ================= *)
+Definition connect_op (o : op) : Prop :=
+  match o with OpTick | OpFlush => True | OpFeed d => is_connect d | _ => False end.
+
+Lemma connecting_step c e o out : c_state c = Connecting -> connect_op o -> step c e o = Ok out ->
+  c_state (out_conn out) = Connecting /\ Forall is_connect (out_sent out).
+Proof.
+  destruct c as [st sd]. cbn [c_state]. intros -> Ho H.
+  destruct o as [|data vital| | |reason|data|d| |]; try contradiction; unfold step in H; cbn [c_state c_send] in H.
+  - discriminate.
+  - destruct (triggered sd (e_now e)).
+    + unfold tick_action in H. cbn [c_state send_control] in H. rewrite ctl_fits in H by exact I. cbn [bind] in H.
+      injection H as <-. cbn. split; [reflexivity|]. constructor; [exact I|constructor].
+    + injection H as <-. cbn. split; [reflexivity|constructor].
+  - destruct d as [t1 t2 pl|tk ack ctl|tk ack rr n cs]; cbn [connect_op is_connect] in Ho; try contradiction.
+    destruct ctl; try contradiction.
+    unfold feed in H. cbn [c_state c_send dgram_tok dgram_ack state_token] in H.
+    destruct ((ack <? 0) || (SEQ_MOD <=? ack)); [discriminate|].
+    injection H as <-. cbn. split; [reflexivity|constructor].
+Qed.
+
+Definition both_connecting (w : link) : Prop :=
+  c_state (l_conn (k_a w)) = Connecting /\ c_state (l_conn (k_b w)) = Connecting /\
+  connect_bag (k_ab w) /\ connect_bag (k_ba w).
+
+Theorem both_connecting_step w l w' : both_connecting w -> heal_label l -> link_step w l = Ok w' -> both_connecting w'.
+Proof.
+  intros [Ha [Hb [Hab Hba]]] Hl H. destruct l as [s o|dt|from k|from k]; cbn [link_step] in H.
+  - assert (Hq : connect_op o) by (destruct o; try contradiction; exact I).
+    destruct (side_step (k_now w) (get w s) o) as [[x fl]| | |] eqn:E; try discriminate. injection H as <-.
+    apply side_step_inv in E as [out [Hs [-> ->]]].
+    destruct s; cbn [get] in Hs; unfold both_connecting, set_side; cbn [k_a k_b k_ab k_ba after l_conn].
+    + destruct (connecting_step _ _ _ _ Ha Hq Hs) as [P1 P2].
+      split; [exact P1|]. split; [exact Hb|]. split; [|exact Hba].
+      apply Forall_app. split; [exact Hab|apply Forall_map; exact P2].
+    + destruct (connecting_step _ _ _ _ Hb Hq Hs) as [P1 P2].
+      split; [exact Ha|]. split; [exact P1|]. split; [exact Hab|].
+      apply Forall_app. split; [exact Hba|apply Forall_map; exact P2].
+  - injection H as <-. exact (conj Ha (conj Hb (conj Hab Hba))).
+  - destruct (nth_error (bag w from) k) as [f|] eqn:Ek; [|injection H as <-; exact (conj Ha (conj Hb (conj Hab Hba)))].
+    destruct (side_step (k_now w) (get w (other from)) (OpFeed (f_d f))) as [[x fl]| | |] eqn:E; try discriminate.
+    injection H as <-. apply side_step_inv in E as [out [Hs [-> ->]]]. apply nth_error_In in Ek.
+    destruct from; cbn [get other bag] in *; unfold both_connecting, set_side; cbn [k_a k_b k_ab k_ba after l_conn].
+    + assert (Hq : connect_op (OpFeed (f_d f))).
+      { unfold connect_bag in Hab. rewrite Forall_forall in Hab. exact (Hab f Ek). }
+      destruct (connecting_step _ _ _ _ Hb Hq Hs) as [P1 P2].
+      split; [exact Ha|]. split; [exact P1|]. split; [exact Hab|].
+      apply Forall_app. split; [exact Hba|apply Forall_map; exact P2].
+    + assert (Hq : connect_op (OpFeed (f_d f))).
+      { unfold connect_bag in Hba. rewrite Forall_forall in Hba. exact (Hba f Ek). }
+      destruct (connecting_step _ _ _ _ Ha Hq Hs) as [P1 P2].
+      split; [exact P1|]. split; [exact Hb|]. split; [|exact Hba].
+      apply Forall_app. split; [exact Hab|apply Forall_map; exact P2].
+  - injection H as <-. unfold both_connecting. destruct from; cbn [k_a k_b k_ab k_ba].
+    + split; [exact Ha|]. split; [exact Hb|]. split; [apply remove_nth_forall, Hab|exact Hba].
+    + split; [exact Ha|]. split; [exact Hb|]. split; [exact Hab|apply remove_nth_forall, Hba].
+Qed.
+
+Theorem both_connecting_run ls : forall w w', both_connecting w -> Forall heal_label ls -> link_run w ls = Ok w' ->
+  both_connecting w'.
+Proof.
+  induction ls as [|l ls IH]; intros w w' Hn Hl H; cbn [link_run] in H.
+  - injection H as <-. exact Hn.
+  - inversion Hl as [|l0 ls0 Hl1 Hl2]; subst. destruct (link_step w l) as [w1| | |] eqn:E; try discriminate.
+    eapply IH; [eapply both_connecting_step; eassumption|exact Hl2|exact H].
 Qed.
